@@ -41,7 +41,11 @@ type Geom struct {
 // NewGeom builds the standard geometry with nExtra additional seeded boxes.  Regions:
 // single voxel, one 8^3 sub-block, a box spanning two blocks, a box crossing x=0 into
 // negative coordinates, a half block, and the remainders of the four blocks.
-func NewGeom(seed int64, small bool) *Geom {
+func NewGeom(seed int64, small bool) *Geom { return NewGeomKind(seed, small, false) }
+
+// NewGeomKind: with wholeBlock the small geometry gets a seventh region that is exactly
+// block 4 (so that a voxel write can make one octant of a parent block solid).
+func NewGeomKind(seed int64, small, wholeBlock bool) *Geom {
 	g := &Geom{BS: 32}
 	g.Blocks = [][3]int{{0, 0, 0}, {1, 0, 0}, {-1, 0, 0}, {0, 1, 0}}
 	if small {
@@ -54,6 +58,10 @@ func NewGeom(seed int64, small bool) *Geom {
 		g.BoxReg = []int{1, 2, 3}
 		g.DefReg = []int{4, 5, 6, 6} // blocks 3 and 4 share the last region
 		g.R = 6
+		if wholeBlock {
+			g.DefReg = []int{4, 5, 6, 7}
+			g.R = 7
+		}
 	} else {
 		g.Boxes = []Box{
 			{8, 8, 8, 8, 8, 8},
